@@ -42,6 +42,7 @@ type jsonCase struct {
 	Docs    []string `json:"docs,omitempty"`
 	Scen    *jsonVec `json:"scenario,omitempty"`
 	Nils    int      `json:"nils,omitempty"`
+	At      int      `json:"at,omitempty"` // Decoder(refill): how many bytes of the document arrive with the first fill of the buffer
 }
 
 const jLimit = 8
@@ -457,6 +458,29 @@ func c02Decode(c *Ctx, k jsonCase, t reflect.Type, docs []string, mode string) {
 				c.Diverge("C02", "json.Parse", errStr(e1), p, "", k)
 				return
 			}
+		case "Decoder(refill)":
+			// the document arrives in two fills of the Decoder's buffer: a first value takes up all of the first
+			// 32 KiB but k.At bytes
+			const fill = 32768
+			pad := make([]byte, 0, fill+len(b))
+			pad = append(pad, '"')
+			for len(pad) < fill-k.At-2 {
+				pad = append(pad, 'a')
+			}
+			pad = append(pad, '"', '\n')
+			stream := append(pad, b...)
+			d1 := stdjson.NewDecoder(bytes.NewReader(stream))
+			d2 := json.NewDecoder(bytes.NewReader(stream))
+			var r1 stdjson.RawMessage
+			var r2 json.RawMessage
+			if d1.Decode(&r1) != nil || d2.Decode(&r2) != nil {
+				continue
+			}
+			e1 = d1.Decode(t1.Interface())
+			if p := protect(func() { e2 = d2.Decode(t2.Interface()) }); p != "" {
+				c.Diverge("C02", "Decoder.Decode(refill)", errStr(e1), p, "", k)
+				return
+			}
 		default: // Decoder with options
 			d1 := stdjson.NewDecoder(bytes.NewReader(b))
 			d2 := json.NewDecoder(bytes.NewReader(b))
@@ -542,6 +566,20 @@ func c02Vector(c *Ctx, raw stdjson.RawMessage) {
 		}
 		c.Case()
 		c02Decode(c, jsonCase{Shape: v.Shape, Seed: c.Seed, Docs: []string{doc}, Setting: mode}, t, []string{doc}, mode)
+		// the Decoder again, the document cut by a refill of its buffer: at every offset for short documents
+		if i%3 == 2 && len(doc) > 1 {
+			ats := []int{1 + r.intn(len(doc)-1), 1 + r.intn(len(doc)-1)}
+			if len(doc) <= 12 {
+				ats = ats[:0]
+				for a := 1; a < len(doc); a++ {
+					ats = append(ats, a)
+				}
+			}
+			for _, at := range ats {
+				c.Case()
+				c02Decode(c, jsonCase{Shape: v.Shape, Seed: c.Seed, Docs: []string{doc}, Setting: "Decoder(refill)", At: at}, t, []string{doc}, "Decoder(refill)")
+			}
+		}
 	}
 	// histories: two or three decodes into the same variable
 	nh := 12
